@@ -159,7 +159,12 @@ func BuildWorld(seed uint64, k Knobs) *World {
 			w.Users = append(w.Users, NewSecpAccount(seed, fmt.Sprintf("u%d", i)))
 			continue
 		}
-		w.Users = append(w.Users, NewEdAccount(seed, fmt.Sprintf("u%d", i)))
+		u := NewEdAccount(seed, fmt.Sprintf("u%d", i))
+		if i%3 == 1 {
+			// every third user signs in the hardware-wallet format (hash tag + signature over the hashed message)
+			u.PreHash = []string{"SHA256", "SHA512", "SHA224", "SHA384"}[(i/3)%4]
+		}
+		w.Users = append(w.Users, u)
 	}
 	for i := 0; i < k.NumEthUsers; i++ {
 		w.EthUsers = append(w.EthUsers, NewEthAccount(seed, fmt.Sprintf("e%d", i)))
